@@ -252,6 +252,7 @@ def excel_request(c):
 
 def check(run):
     import genlib
+    genlib.validate_tabulation_objects(run, kinds=("adp",), n=run.n(8, 60))
     genlib.validate_writer(run, "gulp", n=run.n(12, 120))
     run.rule = ("tracer models: GULP (1-4 potentials, nr 2..40, dyadic cutoffs; GULP_PairTabulation, writePotentials('GULP'), potable GULP via Configuration and entry point); "
                 "ADP (EAM models with random declared/reversed/missing dipole and quadrupole pairs; class, potable eam_adp); funcfl (writeFuncFL, nr 2..23, nrho 2..17; the effective-charge "
